@@ -3,7 +3,7 @@ CONSTANTS
   AckMode = "shaped"
   ThrMode = "fixed"
   EmptyMode = "fixed"
-  RstMode = "pinned"
+  RstMode = "fixed"
   CfgSet <- LiveCfgsQ
   Extra = 1
   BothWays = FALSE
